@@ -333,5 +333,5 @@ RULES = [
     RuleSpec("C15.R3", r3_rejections_name_option, "rejections name the option", floor=4),
     RuleSpec("C15.R5", r5_unknown_keys, "unknown keys are reported, not fatal", floor=3),
     RuleSpec("C15.R6", r6_precedence, "precedence file < --config < CLI", floor=8),
-    RuleSpec("C15.R7", r7_schema_only_writes, "only schema fields are written onto the settings object", floor=2),
+    RuleSpec("C15.R7", r7_schema_only_writes, "only schema fields are written onto the settings object", floor=1),
 ]
